@@ -24,6 +24,30 @@ def planeMultiplyT [Zero K] [Mul K] (ph : R → K) (p : PlaneM K R) (segTilts : 
 def tiltMultiplyT [Zero K] [Mul K] (ph : R → K) (one : K) (zeroOpd : R) (e : TiltEl R) (data : List (TFld K R)) : List (TFld K R) :=
   (planeMultiplyT ph ⟨.scalar one, .scalar zeroOpd, .scalar true⟩ [] data).map fun ft => (ft.1, ft.2 ++ [e])
 
+/-- an element of a chain: a masked plane without fitted tilts, or a Tilt plane -/
+inductive ChainEl (K R : Type) where
+  | pl (p : PlaneM K R)
+  | tl (e : TiltEl R)
+
+/-- a chain of planes and Tilt planes in any order, applied left to right with the tilt lists carried along (the loop of
+the driver op `c03.chain` for planes without fitted tilts) -/
+def runChainT [Zero K] [Mul K] (ph : R → K) (one : K) (zeroOpd : R) : List (ChainEl K R) → List (TFld K R) → List (TFld K R)
+  | [], d => d
+  | .pl p :: r, d => runChainT ph one zeroOpd r (planeMultiplyT ph p [] d)
+  | .tl e :: r, d => runChainT ph one zeroOpd r (tiltMultiplyT ph one zeroOpd e d)
+
+/-- the masked planes of a chain, in order -/
+def chainPlanes : List (ChainEl K R) → List (PlaneM K R)
+  | [] => []
+  | .pl p :: r => p :: chainPlanes r
+  | .tl _ :: r => chainPlanes r
+
+/-- the Tilt planes of a chain, in order -/
+def chainTilts : List (ChainEl K R) → List (TiltEl R)
+  | [] => []
+  | .pl _ :: r => chainTilts r
+  | .tl e :: r => e :: chainTilts r
+
 /-- forgetting the tilt lists gives `planeMultiply` -/
 theorem planeMultiplyT_data [Zero K] [Mul K] (ph : R → K) (p : PlaneM K R) (segTilts : List (List (TiltEl R)))
     (data : List (TFld K R)) :
